@@ -447,6 +447,32 @@ fn run_sweep_case(c: &SweepCase) -> Result<(), String> {
     if m.len() as u32 != next {
         return Err(format!("len() = {} after {} distinct inserts", m.len(), next));
     }
+    // resize bookkeeping of tables of every length (the generated histories stay below 2^12 bins):
+    // idle state, next threshold three quarters of the length, and one more doubling on demand
+    if c.c % 61 == 0 || c.c >= 4000 {
+        let idle = |m: &flurry::HashMap<u32, u32, HB>, what: &str| -> Result<usize, String> {
+            let d = unsafe { m.verif_dump() };
+            let n = d.table.as_ref().map_or(0, |t| t.bins.len());
+            if d.next_table.is_some() || d.size_ctl < 0 {
+                return Err(format!("{}: the {}-bin map is still in a resizing state (size_ctl {}, next table {})", what, n, d.size_ctl, d.next_table.is_some()));
+            }
+            if d.size_ctl != (n - (n >> 2)) as isize {
+                return Err(format!("{}: the next growth threshold of the {}-bin table is {} instead of {}", what, n, d.size_ctl, n - (n >> 2)));
+            }
+            Ok(n)
+        };
+        let n = idle(&m, "after filling the requested capacity")?;
+        if n <= (1 << 17) {
+            while (m.len()) < n - (n >> 2) {
+                m.insert(next, next, &g);
+                next += 1;
+            }
+            let n2 = idle(&m, "after growing once more")?;
+            if n2 != 2 * n {
+                return Err(format!("inserting up to the threshold of the {}-bin table left a table of {} bins", n, n2));
+            }
+        }
+    }
     Ok(())
 }
 
